@@ -490,3 +490,90 @@ def encoder():
                                   if kind == "real" else "the byte-continuation pseudo-instruction 'empty' adds nothing"),
                                  shown == want, ["C10", "C08"], detail=repr(shown), witness=repr(shown)))
     return obs
+
+
+# --------------------------------------------------------------------------- observer pipeline (which instructions enter the stream)
+PI = "jasm.consumer.InstructionObserverConsumer._process_instruction"
+
+
+class _StubObserver:
+    """an instruction observer whose answer for the instruction is any of: drop it (None), pass it on unchanged, replace it"""
+    def __init__(self, ident: str, log: list):
+        self.ident, self.log = ident, log
+
+    def observe_instruction(self, inst):
+        self.log.append((self.ident, inst))
+        k = ctx().choose(3, f"observer-{self.ident}")
+        if k == 0:
+            return None
+        if k == 1:
+            return inst
+        return J.gd.Instruction(addr=inst.addr, mnemonic=inst.mnemonic, operands=[Name("repl-" + self.ident)])
+
+
+@scenario("pipeline:observers", PI, ["C08", "C07", "C10", "C18", "C12"],
+          doc="an instruction enters the stream iff no installed observer drops it; observers are consulted in order, each at most once, "
+              "on the instruction itself; what is encoded is the last observer's answer")
+def observers_pipeline():
+    ensure()
+    obs: List[Ob] = []
+    PR = ["C08", "C07", "C10", "C18"]
+    # the installed list is [RemoveEmptyInstructions] or [RemoveEmptyInstructions, ValidAddrObserver] (validaddr:install): lengths 0-3 cover it
+    for n in (0, 1, 2, 3):
+        def fn(n=n):
+            log: list = []
+            c = J.consumer.CompleteConsumer(regex_rule="x", matched_observer=J.mobs.MatchedObserver(),
+                                            matching_mode=J.gd.MatchingSearchMode.first_find, return_only_address=False)
+            for k in range(n):
+                c.add_observer(_StubObserver(str(k), log))
+            inst = J.gd.Instruction(addr=Name("a"), mnemonic=Name("m"), operands=[Name("o1")])
+            return [c._process_instruction(inst), inst, log]
+        run = sym_run(fn)
+        for i, p in enumerate(run.paths):
+            base = f"_process_instruction:n={n}:p{i}"
+            if p.kind != "ret":
+                obs.append(simple_ob(base + ":EXC", PI, "EXC", "no exception", False, PR, detail=repr(p.value), witness=str(n)))
+                continue
+            res, inst, log = p.value
+            answers = []        # per consulted observer: 0 drop / 1 same / 2 replaced, read off the path condition
+            for k in range(n):
+                cs = [str(c_) for c_ in p.pc if f"choice!observer-{k}!" in str(c_)]
+                if not cs:
+                    answers.append(None)
+                    continue
+                pos = [c_ for c_ in cs if not c_.startswith("Not(")]
+                answers.append(0 if any(c_.endswith("!0") for c_ in pos) else (1 if pos else 2))
+            consulted = [a for a in answers if a is not None]
+            dropped = 0 in consulted
+            obs.append(simple_ob(base + ":POST-drop", PI, "POST",
+                                 "the instruction is dropped (None) iff one of the observers consulted in order drops it; "
+                                 "no observer can bring a dropped instruction back",
+                                 (res is None) == dropped and (not dropped or consulted[-1] == 0), PR, detail=f"answers={answers} result={res!r}",
+                                 witness=f"n={n} answers={answers}"))
+            order_ok = [x[0] for x in log] == [str(k) for k in range(len(log))] and all(x[1] is inst for x in log)
+            all_asked = dropped or len(log) == n
+            obs.append(simple_ob(base + ":FRAME-order", PI, "FRAME",
+                                 "observers are consulted in installation order, each at most once, on the instruction itself; "
+                                 "every installed observer is consulted unless an earlier one dropped the instruction",
+                                 order_ok and all_asked, PR, detail=f"log={[x[0] for x in log]}", witness=f"n={n} answers={answers}"))
+            if not dropped:
+                if n == 0:
+                    okl = res is inst
+                else:
+                    okl = (res is inst) if consulted[-1] == 1 else (res is not inst and res is not None and list(res.operands) and
+                                                                    getattr(res.operands[0], "ident", "") == f"repl-{n - 1}")
+                obs.append(simple_ob(base + ":POST-last", PI, "POST", "a kept instruction is encoded as the last observer answered it",
+                                     bool(okl), ["C18", "C08"], detail=repr(res), witness=f"n={n} answers={answers}"))
+    # RemoveEmptyInstructions: drops exactly the byte-continuation pseudo-instruction, returns every other instruction itself
+    RE = "jasm.stringify_asm.implementations.observers.RemoveEmptyInstructions.observe_instruction"
+    for kind in ("real", "empty"):
+        def fn2(kind=kind):
+            inst = J.gd.Instruction(addr=Name("a"), mnemonic=Name("m") if kind == "real" else "empty", operands=[Name("o1")])
+            return [J.observers.RemoveEmptyInstructions().observe_instruction(inst), inst]
+        run = sym_run(fn2)
+        for i, p in enumerate(run.paths):
+            ok = p.kind == "ret" and ((p.value[0] is p.value[1]) if kind == "real" else p.value[0] is None)
+            obs.append(simple_ob(f"RemoveEmptyInstructions:{kind}:p{i}:POST", RE, "POST",
+                                 "a real instruction is returned itself, unchanged" if kind == "real" else "the pseudo-instruction 'empty' is dropped",
+                                 ok, ["C08", "C07", "C10"], detail=repr(p.value), witness=kind))
+    return obs
